@@ -846,9 +846,111 @@ def rule_r23(repo):
     res.info['running_state'] = sorted(running)
     return res
 
+VM = 'smt/veriT/verit_macro.py'
+
+
+def rule_r24(repo):
+    """A helper that decides whether `lhs <--> rhs` is an instance of a simplification law walks over both sides in
+    parallel (`l_P, l_then, l_else = ite1.args; r_P, r_then, r_else = ite2.args`).  The law determines the right side
+    completely: on every path that answers True, each named part of the *second* argument has been compared with
+    something (it occurs in a test that has to hold on the way).  A part that is unpacked and never constrained can be
+    anything - `ite P (ite P x y) z <--> ite Q x z` was accepted for any Q.  (Parts of the first argument may be free: the
+    law `ite true x y <--> x` says nothing about y; such parts are conventionally unpacked as `_`.)"""
+    res = RuleResult('C18.R24', 'on every accepting path of a two-sided pattern helper each named part of the right-hand side is constrained', floor=1)
+    for f in mr.verit_eval_side_functions(repo):
+        ps = [p_ for p_ in f.params() if p_ != 'self']
+        if len(ps) < 2:
+            continue
+        rets = [r for r in ast.walk(f.node) if isinstance(r, ast.Return) and isinstance(r.value, ast.Constant) and r.value.value is True]
+        if not rets:
+            continue
+        unp = {}
+        for n in ast.walk(f.node):
+            if isinstance(n, ast.Assign) and isinstance(n.targets[0], ast.Tuple) and isinstance(n.value, ast.Attribute) and n.value.attr == 'args' and \
+                    isinstance(n.value.value, ast.Name) and n.value.value.id in ps:
+                unp.setdefault(n.value.value.id, []).append(n)
+        if len(unp) < 2:
+            continue
+        second = ps[1]
+        cfg = cfg_of(f.node)
+        for i, r in enumerate(sorted(rets, key=lambda r: r.lineno)):
+            rn = cfg.node_for(r)
+            read = set()
+            for t in cfg.test_nodes():
+                if cfg.path_avoiding(rn, skip_edges={(t.id, 'true')}) is None:
+                    read |= {x.id for x in ast.walk(t.ast) if isinstance(x, ast.Name)}
+            miss = []
+            for a in unp.get(second, []):
+                an = cfg.node_for(a)
+                if an is None or not cfg.dominates(an, rn):
+                    continue
+                miss += [e.id for e in a.targets[0].elts if isinstance(e, ast.Name) and e.id != '_' and e.id not in read]
+            res.add('%s :: %s :: accepts#%d' % (f.module.rel, f.qualname, i + 1), not miss,
+                    'every named part of `%s` occurs in a condition of this answer' % second if not miss else
+                    'line %d answers True without any condition on %s (unpacked from `%s`): that part of the right-hand side can be anything, '
+                    'e.g. ite P (ite P x y) z <--> ite Q x z for any Q' % (r.lineno, ', '.join(miss), second), '%s:%d' % (f.module.rel, r.lineno))
+    return res
+
+
+def rule_r25(repo):
+    """The bind rule renames bound variables: (Q x. phi) <--> (Q y. phi').  Its side condition - y is not free in the
+    left-hand formula - is what keeps the renaming from capturing: (!x. x <= y) <--> (!y. y <= y) relates a false formula
+    to a true one.  In the evaluation every new variable (the elements of the list taken from the right-hand side) passes
+    a test of occurrence in the left-hand side that raises, before the step is accepted."""
+    res = RuleResult('C18.R25', 'a step that renames bound variables tests that the new variables do not occur free in the formula on the left', floor=1)
+    cls = [c for c in repo.module(VM).classes.values() if c.name == 'BindMacro']
+    need(cls, 'BindMacro not found')
+    f = cls[0].methods.get('eval')
+    cfg = cfg_of(f.node)
+    flow = flow_of(f.node)
+    accepts = [r for r in cfg.return_nodes() if isinstance(r.ast.value, ast.Call) and call_name(r.ast.value) == 'Thm']
+    need(accepts, 'BindMacro.eval: accepting return not found')
+    # lists of variables taken from the right-hand side: appended to in a loop that opens the binders of `rhs`
+    rlists = set()
+    for n in ast.walk(f.node):
+        if isinstance(n, ast.While) and any(isinstance(a, ast.Assign) and isinstance(a.value, ast.Call) and call_attr(a.value) == 'dest_abs' and
+                                            'r_bd' in src(a.value, 40) or isinstance(a, ast.Assign) and isinstance(a.value, ast.Call) and call_attr(a.value) == 'dest_abs' and
+                                            any(p_.startswith('goal.rhs') or p_.startswith('goal.args') or p_.startswith('rhs') for p_ in flow.resolve(a.value.func.value))
+                                            for a in ast.walk(n)):
+            for c in ast.walk(n):
+                if isinstance(c, ast.Call) and call_attr(c) == 'append' and isinstance(c.func.value, ast.Name):
+                    rlists.add(c.func.value.id)
+    need(rlists, 'BindMacro.eval: the list of bound variables of the right-hand side not found')
+    ok = False
+    for lp in ast.walk(f.node):
+        if not isinstance(lp, ast.For):
+            continue
+        itnames = {x.id for x in ast.walk(lp.iter) if isinstance(x, ast.Name)}
+        if not (itnames & rlists):
+            continue
+        tnames = {x.id for x in ast.walk(lp.target) if isinstance(x, ast.Name)}
+        head = [n for n in cfg.nodes if n.kind == 'iter' and n.ast is lp]
+        for t in cfg.test_nodes():
+            if not any(t.ast is x for st in lp.body for x in ast.walk(st)):
+                continue
+            e = t.ast
+            occ = isinstance(e, ast.Call) and call_attr(e) in ('occurs_var', 'has_vars', 'has_var') and e.args and \
+                {x.id for x in ast.walk(e.args[0]) if isinstance(x, ast.Name)} & tnames
+            cp = compare_parts(e)
+            mem = cp and cp[0] is ast.In and {x.id for x in ast.walk(cp[1]) if isinstance(x, ast.Name)} & tnames and \
+                isinstance(cp[2], ast.Call) and call_attr(cp[2]) in ('get_vars',)
+            if not (occ or mem):
+                continue
+            subj = e.func.value if occ else cp[2].func.value
+            about_lhs = any(p_.startswith('goal.lhs') or p_.startswith('goal.args') or p_ == 'lhs' or p_.startswith('args') for p_ in flow.resolve(subj))
+            raises = not any(a.id in cfg.reach_from([b for b, l in t.succ if l == 'true']) for a in accepts)
+            before = head and all(cfg.path_avoiding(a, skip_nodes=head) is None for a in accepts)
+            if about_lhs and raises and before:
+                ok = True
+    res.add('%s :: BindMacro.eval :: new-variables-not-free-in-lhs' % VM, ok,
+            'each variable of %s is tested for occurrence in the left-hand side before the step is accepted' % '/'.join(sorted(rlists)) if ok else
+            'the variables that the right-hand side binds (%s) are never tested for occurrence in the left-hand side: the renaming can capture, '
+            'and (!x. x <= y) <--> (!y. y <= y) is evaluated to a theorem' % '/'.join(sorted(rlists)), f.loc)
+    return res
+
 
 def rules(repo):
     r1 = mr.zip_rule(repo, 'C18.R1', mr.verit_eval_side_functions(repo), floor=9)
     r2 = mr.hyps_rule(repo, 'C18.R2', mr.verit_macros, floor=80)
     return [r1, r2, rule_r3(repo), rule_r4(repo), rule_r5(repo), rule_r6(repo), rule_r7(repo), rule_r8(repo), rule_r9(repo), rule_r10(repo), rule_r11(repo), mr.expansion_uses_rule(repo, 'C18.R12', mr.verit_macros, floor=15), rule_r13(repo), rule_r14(repo),
-            rule_r15(repo), rule_r16(repo), rule_r17(repo), rule_r18(repo), rule_r19(repo), rule_r20(repo), rule_r21(repo), rule_r22(repo), rule_r23(repo)]
+            rule_r15(repo), rule_r16(repo), rule_r17(repo), rule_r18(repo), rule_r19(repo), rule_r20(repo), rule_r21(repo), rule_r22(repo), rule_r23(repo), rule_r24(repo), rule_r25(repo)]
